@@ -51,6 +51,8 @@ def run(ck):
         ({"A": [{"f": "a", "g": "b"}, {"f": "c", "g": "d"}], "B": {"h": "x"}, "condition": "A and B"}, [{"f": "c", "g": "d", "h": "x"}, {"f": "c"}, {}]),
         ({"A": {"n": {"f": "a"}}, "B": {"n": {"g": "b"}}, "condition": "A and B"}, [{"n": {"f": "a", "g": "b"}}, {"n": [{"f": "a"}, {"g": "b"}]}, {}]),
         ({"A": {"f": ["foo", "bar"], "g": ["ifoo", "i*bar"]}, "condition": "A"}, [{"f": "foo", "g": "FOO"}, {"f": "bar", "g": "xBAR"}, {"f": "foo"}]),
+        ({"X": [{"f": {"all(k)": ["*a*", "?b"]}}, {"f": {"g": "x"}}], "condition": "X"}, [{"f": [{"k": "a"}, {"k": "b"}]}, {"f": [{"k": "ab"}]}, {"f": {"k": "ab"}}, {"f": [{"g": "x"}]}, {}]),
+        ({"X": {"f": [{"all(k)": ["*a*", "?b"]}, {"all(k)": ["*c*", "?d"]}]}, "condition": "X"}, [{"f": [{"k": "a"}, {"k": "b"}]}, {"f": [{"k": "cd"}]}, {}]),
         ({"A": {"f": ["i?^foo", "i?bar$", "baz"]}, "condition": "A"}, [{"f": "FOOD"}, {"f": "crowBar"}, {"f": "baz"}, {"f": "x"}, {}]),
         ({"A": {"f": "i?^foo"}, "B": {"f": "i?bar$"}, "C": {"f": "?baz"}, "condition": "A or B or not C"}, [{"f": "FOOD"}, {"f": "crowBar"}, {"f": "bazz"}, {}]),
         ({"A": {"f": ["?^foo", "?bar$", "ibaz", "iqux"]}, "condition": "not A"}, [{"f": "food"}, {"f": "BAZ"}, {"f": "Qux"}, {"f": "x"}, {}]),
